@@ -51,6 +51,21 @@ def run(chk):
     ires, _, _ = core.differential(chk, "str_composeid:create", cases, "create_compose_id",
                                    model_cases=[S.to_model(a) for a in cases], impl_fn="impl_roundtrip",
                                    nontrivial=nt, oracle=oracle, classify=classify, normalise=norm)
+    # legacy (pre-0.3) composeinfo documents: the facts exist only inside the id and must come back when the document is loaded
+    lcases = [{"s": r[1][0], "version": rng.choice(["0.2", "0.1", "0.0"]), "want": [a["date"], a["ct"], a["respin"]]}
+              for a, r in zip(cases, ires) if r[0] == "ok" and a["respin"] < 10 ** 7][:N[chk.tier] // 4]
+    ir = core.ImplRunner("str_composeid", fn="impl_legacy_doc", per_case_timeout=10.0)
+    try:
+        lres = ir.run(lcases)
+    finally:
+        ir.close()
+    for c, r in zip(lcases, lres):
+        if r != ["ok", c["want"]]:
+            chk.violation("a format %s composeinfo with id %r loads as %r; the id was created from date/type/respin %r"
+                          % (c["version"], c["s"], r, c["want"]), {"s": c["s"], "version": c["version"]}, "str_composeid:legacy_doc")
+    chk.add_cases([{"s": c["s"], "legacy": c["version"]} for c in lcases], [True] * len(lcases))
+    chk.traces += len(lcases)
+    chk.record_suite("str_composeid:legacy_doc", {"cases": len(lcases)})
     ids = [{"s": r[1][0]} for r in ires if r[0] == "ok"] + S.gen_ids(rng, N[chk.tier])
     # documented suffixes, missing respin, unknown suffix
     doc = {"": "production", ".n": "nightly", ".nightly": "nightly", ".t": "test", ".test": "test", ".ci": "ci", ".d": "development"}
